@@ -160,7 +160,7 @@ def run_shard(ctx):
         jwk = K.new_jwk(kind, stratum)
         if stratum:
             ctx.count(f"forced_leading_zero_{stratum}")
-        for extra in (None, rng.choice(K.EXTRAS[1:])):
+        for extra in (None, rng.choice(K.EXTRAS[1:]), rng.choice(K.EXTRAS[-2:])):
             j2 = jwk
             if extra and rep.startswith("jwk"):
                 items = list({**jwk, **extra}.items())
